@@ -4,7 +4,10 @@
 #include "model_stack.h"
 enum { container_type_object = 0, container_type_array = 1 };
 /*@ENUM json_errc@*/
-struct compact_encoder { int nesting_depth_; int max_nesting_depth_; };
+/*@ENUM semantic_tag@*/
+/*@ENUM byte_string_chars_format@*/
+/*@FUNC resolve_byte_string_chars_format@*/
+struct compact_encoder { int nesting_depth_; int max_nesting_depth_; int byte_string_format_; };
 /* ---- S-JSONTXT: push-down monitor over the output tokens; of its stack only the top frame is kept (kind, state), the frame below the top is
  * described by the ghost vx_below_kind: frames below the top are not touched by any operation (frame rule), so the invariant is inductive per frame */
 enum { K_ROOT = 0, K_ARRAY = 1, K_OBJECT = 2 };
@@ -17,6 +20,9 @@ static bool vx_expects_value(void) { return vx_m_kind == K_ROOT ? vx_m_st == S_E
 /* precondition of the value events: the grammar allows a value here, possibly after the comma that the encoder itself writes between array elements */
 static bool vx_value_may_follow(void) { return vx_m_kind == K_ROOT ? vx_m_st == S_EMPTY : vx_m_kind == K_ARRAY ? (vx_m_st == S_EMPTY || vx_m_st == S_AFTER_VALUE) : vx_m_st == S_AFTER_COLON; }
 static void VX_TOK_VALUE(void) { vx_toks++; if (!vx_expects_value()) vx_bad = true; vx_value_done(); __CPROVER_assert(!vx_bad, "[C08] a value is written only where the RFC 8259 grammar expects one"); }
+static unsigned vx_bytes_toks; static int vx_bytes_fmt;
+static void VX_TOK_VALUE(void);
+static void VX_TOK_BYTES(int fmt) { vx_bytes_toks++; vx_bytes_fmt = fmt; VX_TOK_VALUE(); }   /* quote, bytes_to_baseN (unit base64), quote: one string token */
 static void VX_TOK_STRING_KEY(void) { vx_toks++; if (!(vx_m_kind == K_OBJECT && (vx_m_st == S_EMPTY || vx_m_st == S_AFTER_COMMA))) vx_bad = true; vx_m_st = S_AFTER_KEY; __CPROVER_assert(!vx_bad, "[C08] a member name is written only at the start of a member"); }
 static void VX_TOK(char c)
 {
@@ -52,7 +58,7 @@ static void setup(void)
 {
     vx_e.nesting_depth_ = nondet_int(); vx_e.max_nesting_depth_ = nondet_int();
     vx_depth = nondet_size(); vx_top.type_ = nondet_int(); vx_top.index_ = nondet_size(); vx_pushes = 0; vx_pops = 0;
-    vx_m_kind = nondet_int(); vx_m_st = nondet_int(); vx_m_depth = nondet_size(); vx_below_kind = nondet_int(); vx_bad = false; vx_toks = 0; vx_ec = 0;
+    vx_m_kind = nondet_int(); vx_m_st = nondet_int(); vx_m_depth = nondet_size(); vx_below_kind = nondet_int(); vx_bad = false; vx_toks = 0; vx_ec = 0; vx_bytes_toks = 0; vx_e.byte_string_format_ = nondet_u8();
 }
 double nondet_double(void);
 void h_visit_begin_object(void) { setup(); visit_begin_object(&vx_e, &vx_ec); }
@@ -65,5 +71,6 @@ void h_visit_string(void) { setup(); visit_string(&vx_e, &vx_ec); }
 void h_visit_double(void) { setup(); visit_double(&vx_e, nondet_double(), &vx_ec); }
 void h_visit_int64(void) { setup(); visit_int64(&vx_e, nondet_i64(), &vx_ec); }
 void h_visit_uint64(void) { setup(); visit_uint64(&vx_e, nondet_u64(), &vx_ec); }
+void h_visit_byte_string(void) { setup(); uint8_t t = nondet_u8(); visit_byte_string(&vx_e, t, &vx_ec); }
 void h_visit_bool(void) { setup(); visit_bool(&vx_e, nondet_bool(), &vx_ec); }
 #endif
